@@ -618,4 +618,66 @@ example : atol 8 ([0x31, 0x32, 0x38] ++ [0]) = none := by decide
 example : atoi 16 8 ([0x32, 0x30, 0x30] ++ [0]) = some (-56) := by decide
 example : atoll 8 ([0x31, 0x32, 0x38] ++ [0]) = some 127 ∧ atoll 8 ([0x20, 0x2d, 0x39, 0x39, 0x39] ++ [0]) = some (-128) := by decide
 
+/-! ## Extension: safety WITHOUT any hypothesis on the comparator or the array
+
+"never dereferences outside the array" does not depend on the array being laid
+out as ISO requires (that is the caller's obligation for the RESULT to mean
+something): for every comparator — inconsistent, constant, anything — and every
+array the three bisections terminate, read only indices `< nmemb` and return a
+pointer into `[base, base + nmemb*size]`. -/
+
+theorem bsearch_safe {κ α : Type} (cmp : κ → α → Int) (key : κ) (a : List α) :
+    ∃ r, bsearch cmp key a = some r ∧ ∀ i, r = some i → i < a.length :=
+  bsearch_safe' cmp key a
+
+theorem bounds_safe {κ α : Type} (cmp : κ → α → Int) (key : κ) (a : List α) :
+    (∃ r, upperBound cmp key a = some r ∧ r ≤ a.length) ∧ (∃ r, lowerBound cmp key a = some r ∧ r ≤ a.length) := by
+  constructor
+  · obtain ⟨x, hx, _, h2⟩ := bndLoop_safe (fun x => decide (cmp key x < 0)) a (a.length + 1) 0 a.length
+      (Nat.zero_le _) (Nat.le_refl _) (by omega)
+    exact ⟨x, hx, h2⟩
+  · obtain ⟨x, hx, _, h2⟩ := bndLoop_safe (fun x => decide (cmp key x ≤ 0)) a (a.length + 1) 0 a.length
+      (Nat.zero_le _) (Nat.le_refl _) (by omega)
+    exact ⟨x, hx, h2⟩
+
+/-- … and on bytes, for every element size ≥ 1: no `size`-byte comparator
+argument outside `[base, base + nmemb*size)`, the returned pointer is
+`base + i*size` with `i < nmemb` (bsearch) resp. `i ≤ nmemb` (bounds) -/
+theorem bisections_bytes_safe {κ : Type} (size : Nat) (hs : 0 < size) (cmp : κ → List Byte → Int) (key : κ)
+    (a : List (List Byte)) (hu : Uniform size a) :
+    (∃ r, bsearchB cmp key size a.flatten a.length = some r ∧ ∀ p, r = some p → ∃ i, i < a.length ∧ p = i * size) ∧
+    (∃ i, upperBoundB cmp key size a.flatten a.length = some (i * size) ∧ i ≤ a.length) ∧
+    (∃ i, lowerBoundB cmp key size a.flatten a.length = some (i * size) ∧ i ≤ a.length) := by
+  obtain ⟨r, hr, hin⟩ := bsearch_safe cmp key a
+  obtain ⟨⟨u, hu', hul⟩, ⟨l, hl', hll⟩⟩ := bounds_safe cmp key a
+  obtain ⟨b1, b2⟩ := boundsB_refine cmp key hs a hu
+  refine ⟨⟨r.map (· * size), ?_, ?_⟩, ⟨u, ?_, hul⟩, ⟨l, ?_, hll⟩⟩
+  · rw [bsearchB_refines cmp key hs a hu, hr]; rfl
+  · intro p hp
+    cases r with
+    | none => cases hp
+    | some i =>
+      simp only [Option.map_some, Option.some.injEq] at hp
+      exact ⟨i, hin i rfl, hp.symm⟩
+  · rw [b1, hu']; rfl
+  · rw [b2, hl']; rfl
+
+-- an unordered array and a nonsense comparator: still inside the array
+example : bsearch (fun (k : Int) (e : Int) => if e % 2 = 0 then -1 else k - e) 3 [5, 3, 8, 1, 3, 0, 9] = some (some 4) := by decide
+
+/-- `strto_accumulator_never_wraps` for EVERY step of EVERY run (not only the
+final state): after any digit string the loop state is flagged (`any = -1`) or
+`acc ≤ limit`, and whenever the cutoff/cutlim test admits the next digit `d`,
+`acc * base + d ≤ limit < 2^w`: the unsigned multiplication and addition of the
+code never wrap -/
+theorem strto_no_step_wraps (W b limit : Nat) (ovf : Option Nat) (hb : 0 < b) (hW : limit < W)
+    (ds : List Nat) (hds : ∀ d ∈ ds, d < b) (d : Nat) (hd : d < b) :
+    let st := ds.foldl (fun st (d : Nat) => stepU W b (limit / b) ((limit % b : Nat) : Int) ovf st (d : Int)) (0, 0)
+    st.2 = -1 ∨ (st.1 ≤ limit ∧
+      (¬ (st.1 > limit / b ∨ (st.1 = limit / b ∧ (d : Int) > ((limit % b : Nat) : Int))) → st.1 * b + d < W)) := by
+  intro st
+  rcases stepU_never_wraps W b limit ovf hb hW ds hds d hd st rfl with h | ⟨h1, h2⟩
+  · left; exact h
+  · right; exact ⟨h1, fun hno => by have := h2 hno; omega⟩
+
 end Igris.C11
